@@ -437,10 +437,22 @@ func ruleRequestAfterGate(r *core.Reporter) {
 	} else {
 		r.Held("SetRequest/after-dedupe", 1, "DedupeItems precedes request building")
 	}
-	if ir.Reach([]ir.Pt{exit}, ir.Opts{Stop: seen}).Reached[sr] {
-		r.Violated("SetRequest/after-seencheck", p.InstrPos(sr), "requests can be built without a seencheck pass")
+	// the only way around it is the operator's: the false side of a `config.Get().UseSeencheck` test ("with seencheck enabled")
+	type cfgEdge struct {
+		b *ssa.BasicBlock
+		s int
+	}
+	off := map[cfgEdge]bool{}
+	for _, ii := range ir.Ifs(fn) {
+		if ii.Atom.V != nil && ir.Path(ii.Atom.V) == "config.Get().UseSeencheck" {
+			off[cfgEdge{ii.If.Block(), ii.EdgeWhen(false)}] = true
+		}
+	}
+	notDisabled := func(b *ssa.BasicBlock, s int) bool { return !off[cfgEdge{b, s}] }
+	if ir.Reach([]ir.Pt{exit}, ir.Opts{Stop: seen, EdgeOK: notDisabled}).Reached[sr] {
+		r.Violated("SetRequest/after-seencheck", p.InstrPos(sr), "requests can be built without a seencheck pass although seencheck is enabled")
 	} else {
-		r.Held("SetRequest/after-seencheck", 1, "a SeencheckItem call precedes request building on every path")
+		r.Held("SetRequest/after-seencheck", 1, "a SeencheckItem call precedes request building on every path on which seencheck is enabled (%d disabled-by-configuration edge(s))", len(off))
 	}
 	// only-Fresh filter: between the last GetNodesAtLevel and SetRequest, a loop removes items whose status != Fresh
 	filterOK := false
